@@ -39,7 +39,7 @@ func init() {
 var tags = []ap.LangRef{ap.NilLangRef, "en", "fr", "", "de", "en-US", "EN", "zh-Hans", "ast", "es", "it", "pt-BR", "nl", "ja"}
 
 var texts = []string{"", "a", "b", "hello", "héllo wörld", "line\\nbreak", "{\"k\":\"v\"}", "-", "<p>x</p>", "é\U0001F600",
-	"HELLO", // differs from "hello" in case only
+	"HELLO",                        // differs from "hello" in case only
 	longText + "1", longText + "2", // long texts that differ in their last byte only
 }
 
@@ -476,7 +476,6 @@ func shuffle(t *core.Tape, b ap.NaturalLanguageValues) {
 		b[i], b[j] = b[j], b[i]
 	}
 }
-
 
 // ---------------------------------------------------------------- bounded-exhaustive tier
 
